@@ -9,6 +9,7 @@ CONSTANTS
   BodyMode = "len"
   StyleMode = "one"
   PhraseMode = "free"
+  ManyMode = "none"
   MaxBig = 17
 INIT MCInit
 NEXT Next
